@@ -430,6 +430,9 @@ class DnsRecordRrsig(ParsableBase):  # pylint: disable=too-many-instance-attribu
         parser.parse_numeric('original_ttl', 4)
         parser.parse_timestamp('signature_expiration', item_size=4)
         parser.parse_timestamp('signature_inception', item_size=4)
+        for name in ('signature_expiration', 'signature_inception'):
+            if parser[name] is None:
+                raise InvalidValue(0xffffffff, cls, name)
         parser.parse_numeric('key_tag', 2)
         parser.parse_parsable('signers_name', DnsNameUncompressed)
         parser.parse_raw('signature', parser.unparsed_length)
